@@ -208,12 +208,18 @@ func createSearchAfterDocument(sort search.SortOrder, after []string) *search.Do
 // and geo fields
 func encodeSearchAfter(ss search.SearchSort, after string) string {
 	encodeFloat := func() string {
+		if after == search.HighTerm || after == search.LowTerm {
+			return after // missing-value placeholder: already a sort key
+		}
 		f64, _ := strconv.ParseFloat(after, 64) // error checking in SearchRequest.Validate
 		i64 := numeric.Float64ToInt64(f64)
 		return string(numeric.MustNewPrefixCodedInt64(i64, 0))
 	}
 
 	encodeDate := func() string {
+		if after == search.HighTerm || after == search.LowTerm {
+			return after // missing-value placeholder: already a sort key
+		}
 		t, _ := time.Parse(time.RFC3339Nano, after) // error checking in SearchRequest.Validate
 		i64 := t.UnixNano()
 		return string(numeric.MustNewPrefixCodedInt64(i64, 0))
